@@ -906,3 +906,49 @@ func (e *Engine) resultTypeOf(key string) (types.Type, bool) {
 	}
 	return nil, false
 }
+
+// Shape is the coarse structure of a function that its contract is written against: when it differs
+// from the baseline recorded for the unchanged tree, proof-internal obligations (loop invariants,
+// callee preconditions, safety side conditions) that no longer discharge mean "the proof needs
+// maintenance", not "the property is violated".
+type Shape struct {
+	Loops    int      `json:"loops"`
+	Closures int      `json:"closures"`
+	NParams  int      `json:"nparams"`
+	FreeVars []string `json:"freevars"`
+	Results  int      `json:"results"`
+}
+
+func (e *Engine) shapeOf(fn *ssa.Function) Shape {
+	sh := Shape{Closures: len(fn.AnonFuncs), NParams: len(fn.Params), Results: fn.Signature.Results().Len(), FreeVars: []string{}}
+	if len(fn.Blocks) > 0 {
+		sh.Loops = len(e.loopInfo(fn).ordinal)
+	}
+	for _, fv := range fn.FreeVars {
+		sh.FreeVars = append(sh.FreeVars, fv.Name())
+	}
+	sort.Strings(sh.FreeVars)
+	return sh
+}
+
+func (e *Engine) shapes() map[string]Shape {
+	out := map[string]Shape{}
+	for k, fn := range e.fnByKey {
+		if e.isRepoFn(fn) && len(fn.Blocks) > 0 {
+			out[k] = e.shapeOf(fn)
+		}
+	}
+	return out
+}
+
+func sameShape(a, b Shape) bool {
+	if a.Loops != b.Loops || a.Closures != b.Closures || a.NParams != b.NParams || a.Results != b.Results || len(a.FreeVars) != len(b.FreeVars) {
+		return false
+	}
+	for i := range a.FreeVars {
+		if a.FreeVars[i] != b.FreeVars[i] {
+			return false
+		}
+	}
+	return true
+}
